@@ -18,8 +18,9 @@ REPO = os.environ.get('VERIF_REPO', '/repo')
 sys.path.insert(0, HERE)
 import weave as W
 
-CBMC_BASE = ['--pointer-overflow-check', '--pointer-check', '--bounds-check', '--signed-overflow-check',
+CBMC_BASE = ['--pointer-check', '--bounds-check', '--signed-overflow-check',
              '--div-by-zero-check', '--undefined-shift-check', '--pointer-primitive-check']
+SOLVER = {'kissat': ['--external-sat-solver', 'kissat'], 'cadical': ['--sat-solver', 'cadical'], 'minisat': []}[os.environ.get('VERIF_SOLVER', 'kissat')]
 MEM_KB = int(os.environ.get('VERIF_MEM_KB', str(12 * 1024 * 1024)))
 
 def _limits():
@@ -197,8 +198,7 @@ def run_unit(u, keep=False, mutant=None, timeout=None, verbose=False, trace=Fals
             cb.append('--trace')
         if u.get('unwind'):
             cb += ['--unwind', str(u['unwind']), '--unwinding-assertions']
-        if u.get('solver'):
-            cb += u['solver']
+        cb += u.get('solver', SOLVER)
         cb.append(gb2)
         res['checker_cmd'] = ' '.join(cmd[:-2]) + ' ; ' + ' '.join(cb[:-1])
         rc, out, err, dt = run(cb, tmo)
